@@ -154,6 +154,7 @@ type State struct {
 	model  *Model           // a model of pc if known (may be nil)
 	trail  []string         // choice trail (for reporting)
 	obs    []obsRec         // vObserve records along this path
+	dirty  []int            // append-only log of object ids written (for merge-by-shape)
 }
 
 type obsRec struct {
@@ -176,6 +177,7 @@ func (st *State) fork() *State {
 	}
 	n.trail = st.trail[:len(st.trail):len(st.trail)]
 	n.obs = st.obs[:len(st.obs):len(st.obs)]
+	n.dirty = st.dirty[:len(st.dirty):len(st.dirty)]
 	return n
 }
 
@@ -211,7 +213,10 @@ func (st *State) get(obj int) Value {
 	panic(engineErr(fmt.Sprintf("dangling object %d", obj)))
 }
 
-func (st *State) set(obj int, v Value) { st.heap[obj] = v }
+func (st *State) set(obj int, v Value) {
+	st.heap[obj] = v
+	st.dirty = append(st.dirty, obj)
+}
 
 // navigate returns the sub-value at path.
 func navigate(v Value, path []int) Value {
